@@ -19,7 +19,6 @@ sys.path.insert(0, os.path.join(facts.VERIF, "reference"))
 import kernels as ref  # noqa: E402
 
 META = {
-    "pending": "reports the key-from-full-path deviation (6 sites) on the unchanged tree; reproduction in progress before listing it as a known finding",
     "level": "other",
     "technique": "compiler-evaluated constants and wire signatures (typed HIR) compared with an independent reference of the published format; literal/shape rules on key derivation and tail handling",
     "claim": "Decides equality with the published MPQ format for ~50 constants, the V1–V4 header layouts on both the write and the read side (width, order, field identity), the 16-byte hash/block entry layouts, the table key names, the position-adjusted key formula, whole-word-only encryption and plain-name key derivation. Does not run a second implementation or compare zlib/bzip2 payloads.",
